@@ -173,6 +173,9 @@ def check_replay(ctx, case):
         # (C) the recording operation mutates what intercepted calls returned, right after the call
         live_prog = mutating_variant(prog)
         live_prog['params'] = {'copy_data_on_intercepion': True}
+        if case.get('configured_base') is not None:
+            # the operation class extends a class configured (earlier) WITHOUT copy-on-interception
+            live_prog['base_params'] = dict(case['configured_base'])
         # whether a recording is kept is a separate matter (C17): classes recorded only on demand (rate 0, kept by
         # forced sampling) or sampled (rate 0.5, forced here so that there is a recording to look at) copy as well
         extra = case.get('copy_params')
@@ -287,6 +290,8 @@ def check_replay(ctx, case):
     ctx.case(case, changed > 0, classes=('replay', 'cassette:' + case['cassette'], 'copy-on' if copy_on else 'copy-off') + (
         ('odd-equality:%s' % case['odd_eq']['type'],) if case.get('odd_eq') else ()) + (
             ('renamed-inputs-with-fallback',) if case.get('renamed') else ()) + (
+                ('copy-on:base-class-configured-without-copy',) if copy_on and case.get('configured_base') is not None
+                else ()) + (
         ('copy-on:params=%s' % sorted((case.get('copy_params') or {}).get('params', {}).items()),) if copy_on else ()))
 
 
@@ -326,6 +331,7 @@ def replay_cases():
     return st.fixed_dictionaries({'kind': st.just('replay'), 'prog_odd': prog_and_odd,
                                   'cassette': st.sampled_from(['memory', 'memory', 'file', 's3', 'async']),
                                   'copy_on': st.booleans(), 'renamed': st.sampled_from([False, False, True]),
+                                  'configured_base': st.sampled_from([None, None, {}, {'sampling_rate': 1}]),
                                   'copy_params': st.sampled_from([
                                       None, None, {'params': {'sampling_rate': 0}, 'force_first': True},
                                       {'params': {'sampling_rate': 0}, 'force_first': False},
